@@ -43,7 +43,7 @@ def compile_batch(files, tag="batch", renamed=True, build=False):
             shutil.rmtree(bind)
         os.makedirs(bind, exist_ok=True)
         with open(os.path.join(d, "Cargo.toml"), "w") as f:
-            f.write(CARGO_TOML % {"dep": DEP_RENAMED if renamed else DEP_PLAIN})
+            f.write(common.repo_paths(CARGO_TOML % {"dep": DEP_RENAMED if renamed else DEP_PLAIN}))
         if not os.path.exists(os.path.join(d, "Cargo.lock")):
             shutil.copy(os.path.join(REPO, "Cargo.lock"), os.path.join(d, "Cargo.lock"))
         for name, src in files.items():
